@@ -2,6 +2,7 @@
 # tools/try_seeded.sh <dir containing patch.diff and demo.py> <Cxx> [tier]
 # Applies the seeded change to a scratch worktree of /repo, confirms the demo (fails with, passes without),
 # runs ./check against it, removes the worktree.  Never touches /repo's working tree.
+# BASELINE=1 also runs the pinned test-suite (tools/baseline_check.py) on the changed worktree (about 2.5 minutes).
 d="$1"; id="$2"; tier="${3:-quick}"
 wt=/tmp/lead_seed_$$/wt
 mkdir -p "$(dirname "$wt")"
@@ -10,6 +11,7 @@ cp /repo/src/easynetwork/version.py "$wt/src/easynetwork/version.py"
 echo "== demo on unchanged tree"; (cd "$wt" && PYTHONPATH="$wt/src" timeout 300 /venv/bin/python "$d/demo.py" > /dev/null 2>&1; echo "exit=$?")
 (cd "$wt" && git apply "$d/patch.diff") || { echo "patch does not apply"; git -C /repo worktree remove --force "$wt"; exit 2; }
 echo "== demo on changed tree"; (cd "$wt" && PYTHONPATH="$wt/src" timeout 300 /venv/bin/python "$d/demo.py" 2>&1 | tail -3; echo "exit=$?")
+if [ -n "$BASELINE" ]; then echo "== pinned baseline on changed tree"; (cd /verif && VERIF_REPO="$wt" timeout 3000 /venv/bin/python tools/baseline_check.py 2>&1 | tail -4); fi
 echo "== check $id on changed tree"
 (cd /verif && VERIF_REPO="$wt" timeout 3000 ./check "$id" --tier "$tier" 2>&1 | tail -6)
 git -C /repo worktree remove --force "$wt"; rm -rf "$(dirname "$wt")"
